@@ -249,12 +249,15 @@ def history_episodes(run, sb, rng, tier):
                     s.append(win[:h] + rng.choice("ACGT") + win[h + 1:])
         names = ["h%d_%d" % (i, j) for j in range(ns)]
         sb.reset()
-        half = ns // 2
-        ea = sb.build("a", samples[:half], names[:half], k, rc)
-        eb = sb.build("b", samples[half:], names[half:], k, rc)
-        if not (ea.get("ok") and eb.get("ok")):
+        # the history starts with one merge command over 2-4 files (a k-mer present in the first and third file
+        # but not in the second exercises the padding of rows inside a multi-way merge)
+        nf = min(ns, rng.choice([2, 2, 3, 3, 4]))
+        cuts = sorted(rng.sample(range(1, ns), nf - 1))
+        bounds = list(zip([0] + cuts, cuts + [ns]))
+        built = [sb.build("p%d" % fi, samples[a:b_], names[a:b_], k, rc) for fi, (a, b_) in enumerate(bounds)]
+        if not all(e.get("ok") for e in built):
             continue
-        sb.merge(["a", "b"], "cur")
+        sb.merge(["p%d" % fi for fi in range(nf)], "cur")
         cur_names = list(names)
         nops = rng.randint(1, 8)
         ops_done = ["merge"]
